@@ -559,6 +559,11 @@ double Find_Root(std::function<double(double)> func, double xLeft, double xRight
 			double f3 = func(x3);
 			// New point
 			double x4 = x3 + (x3 - x1) * Sign(f1 - f2) * f3 / sqrt(f3 * f3 - f1 * f2);
+			// In exact arithmetic x4 lies inside the bracket; rounding can push it past the nearer end by a few ulp.
+			if(x4 < std::min(x1, x2))
+				x4 = std::min(x1, x2);
+			else if(x4 > std::max(x1, x2))
+				x4 = std::max(x1, x2);
 			// Prepare next iteration
 			result	  = x4;
 			double f4 = func(x4);
